@@ -389,6 +389,9 @@ def decorate(rng, spec, info, *, rich=True):
             c["border_bottom"] = rng.choice(STYLES)
         if rng.random() < 0.2:
             c["border_left"] = rng.choice(STYLES)
+        if rng.random() < 0.15:
+            # the component's own relative widths: one cell whatever their number
+            c["col_rel_width"] = [rng.choice([1, 2, 1.5, 0.7]) for _ in range(rng.randint(1, 3))]
         if rng.random() < 0.2:
             c["text_font_size"] = rng.choice([7.5, 8, 10])
         if rng.random() < 0.15:
